@@ -162,6 +162,11 @@ class PassThrough(Exception):
     """Harness control-flow exceptions that must cross the code under test untouched (never a verdict)."""
 
 
+class SkipCase(PassThrough):
+    """The generated case is degenerate after rounding to the working dtype (e.g. two output times coincide):
+    skipped and counted, never judged."""
+
+
 class SimCrash(Exception):
     """Injected crash of a peer (C13)."""
 
